@@ -187,7 +187,85 @@ fn one_json(line: &str) -> String {
     .to_string()
 }
 
+// ---------------------------------------------------------------------------
+// mode `codespan`: the answers of the real location code on a bare text, to be
+// compared with the EXTRACTED Model.Labels.location / sarif_region.
+//
+//   locations codespan   stdin: one line per case
+//       loc <maxoff> <scalar> <scalar> ...        (Unicode scalar values, decimal)
+//       region <start> <end> <scalar> ...
+//   stdout:
+//       loc: for every byte offset 0..=maxoff what `FileLibrary::to_storage().location`
+//            answers, `L:C` or `x` (an Err), blank separated;
+//       region: `sl sc el ec | hl hc`: the region `ReportLabel::to_sarif`
+//            (sarif_conversion.rs) writes for a primary label start..end of a
+//            report, and the line:column of the header codespan's terminal
+//            renderer prints for it (`x` where the conversion / rendering fails).
+fn text_of(tokens: &[&str]) -> Option<String> {
+    let mut s = String::new();
+    for t in tokens {
+        s.push(char::from_u32(t.parse::<u32>().ok()?)?);
+    }
+    Some(s)
+}
+
+fn codespan_one(line: &str) -> String {
+    use program_structure::report_code::ReportCode;
+    use program_structure::sarif_conversion::ToSarif;
+    let toks: Vec<&str> = line.split_whitespace().collect();
+    let bad = || format!("{} = bad-input", line.trim());
+    match toks.first().copied() {
+        Some("loc") if toks.len() >= 2 => {
+            let (Ok(max), Some(text)) = (toks[1].parse::<usize>(), text_of(&toks[2..])) else { return bad() };
+            let mut files = FileLibrary::new();
+            let id = files.add_file("t.circom".to_string(), text, true);
+            let mut out = Vec::new();
+            for off in 0..=max {
+                out.push(match guarded(|| files.to_storage().location(id, off)) {
+                    Some(Ok(l)) => format!("{}:{}", l.line_number, l.column_number),
+                    Some(Err(_)) => "x".to_string(),
+                    None => "panic".to_string(),
+                });
+            }
+            format!("{} = {}", line.trim(), out.join(" "))
+        }
+        Some("region") if toks.len() >= 3 => {
+            let (Ok(s), Ok(e), Some(text)) =
+                (toks[1].parse::<usize>(), toks[2].parse::<usize>(), text_of(&toks[3..]))
+            else {
+                return bad();
+            };
+            let mut files = FileLibrary::new();
+            let id = files.add_file("t.circom".to_string(), text, true);
+            let mut report = Report::warning("m".to_string(), ReportCode::FieldElementArithmetic);
+            report.add_primary(s..e, id, "l".to_string());
+            let region = match guarded(|| report.to_sarif(&files)) {
+                Some(Ok(r)) => {
+                    let v = serde_json::to_value(&r).unwrap_or(Value::Null);
+                    let g = &v["locations"][0]["physicalLocation"]["region"];
+                    format!("{} {} {} {}", g["startLine"], g["startColumn"], g["endLine"], g["endColumn"])
+                }
+                Some(Err(_)) => "x".to_string(),
+                None => "panic".to_string(),
+            };
+            let header = match render(&report, &files) {
+                Ok(t) => t
+                    .lines()
+                    .find_map(|l| l.trim_start().strip_prefix("\u{250c}\u{2500} t.circom:").map(|r| r.trim().replace(':', " ")))
+                    .unwrap_or_else(|| "x".to_string()),
+                Err(_) => "x".to_string(),
+            };
+            format!("{} = {} | {}", line.trim(), region, header)
+        }
+        _ => bad(),
+    }
+}
+
 fn main() {
     silence_panics();
-    each_line(one);
+    if std::env::args().nth(1).as_deref() == Some("codespan") {
+        each_line(codespan_one);
+    } else {
+        each_line(one);
+    }
 }
